@@ -84,7 +84,7 @@ Definition cuw_iter (a : assets) (x : st) (l : lstate) : iter :=
                   if negb child_failed then
                     let flow_missing := run_flow_unusable a (session_ x) pi in
                     if flow_missing
-                    then ICont (fail_run x pi None FParentMissingFlow) l
+                    then ICont (fail_run x pi None (unusable_code a (session_ x) pi FParentMissingFlow)) l
                     else
                       match find_resume_exit a x pi false [] with
                       | FreOk x' e op =>
@@ -787,7 +787,7 @@ Definition finish_run (a : assets) (x : st) (l : lstate) (ci : nat) : iter :=
                   if negb child_failed then
                     let flow_missing := run_flow_unusable a (session_ x) pi in
                     if flow_missing
-                    then ICont (fail_run x pi None FParentMissingFlow) l
+                    then ICont (fail_run x pi None (unusable_code a (session_ x) pi FParentMissingFlow)) l
                     else
                       match find_resume_exit a x pi false [] with
                       | FreOk x' e op =>
